@@ -46,6 +46,14 @@ CHECKS = {
                      "target, no `do` record after a non-zero `done` within a process, contents after exit 0.",
                 note="Serial (-j1) enumeration is complete for this world and list length <=3; other graph shapes are covered only through C01/C02's fail world. "
                      "Parallel interleavings are explored by the E2 scenarios."),
+    "C06": dict(engine="E2", category="model_checking", design_ref="DESIGN.md §4 C06, appendix A",
+                technique="stateless model checking of 2-3 concurrent real invocations under a controlled scheduler; interval-overlap and commit-before-handover oracle on the event order",
+                text="Two or three top-level invocations contending for one target, for a shared dependency, redo against redo-ifchange, and an invocation that takes an error "
+                     "exit while its job is still running; every schedule with <= b deviations (quick 1, thorough 2-3) at lock try/wait/unlock, transaction begin, event loop, fork "
+                     "hand-over, token pipe and script gates. From the scheduler's total event order: begin/end of one target's script never overlap; between a script's end and "
+                     "the next acquisition of that target's lock there is a record-begin followed by COMMIT from the recording process; every finished execution is recorded.",
+                note="Script begin/end come from the generated scripts (trap EXIT). SIGKILL of an invocation's parent only (kernel frees fcntl locks of a dead owner while its "
+                     "script survives) is outside these scenarios and is not claimed."),
     "C09": dict(engine="E2", category="model_checking", design_ref="DESIGN.md §4 C09, appendix A",
                 technique="stateless model checking of the real process tree under a controlled scheduler, iterative deviation bounding",
                 text="Every schedule with <= b deviations (quick b=1, thorough b=2) from the default policy is executed on the real binary, one process running "
